@@ -96,6 +96,53 @@ var StatusTokens = []string{
 	"0101", "00101", "000000000000000000000101",
 }
 
+// decAdd adds two non-negative decimal numerals.
+func decAdd(a, b string) string {
+	var out []byte
+	carry := 0
+	for i, j := len(a)-1, len(b)-1; i >= 0 || j >= 0 || carry > 0; i, j = i-1, j-1 {
+		s := carry
+		if i >= 0 {
+			s += int(a[i] - '0')
+		}
+		if j >= 0 {
+			s += int(b[j] - '0')
+		}
+		out = append([]byte{byte('0' + s%10)}, out...)
+		carry = s / 10
+	}
+	return string(out)
+}
+
+// WrapNumerals returns decimal numerals that are not the numeral v but that a
+// careless machine-word conversion may read as v: k*2^64+v, k*2^63+v and
+// k*2^32+v (congruent to v modulo the word size), the digits of 2^63, 2^63-1,
+// 2^64, 2^64-1, 2^32, 2^31 (and one more or less) followed by the digits of v
+// (a conversion whose overflow guard fires late or only once keeps
+// accumulating modulo 2^64 after the wrap), and long digit strings ending in
+// the digits of v. For a status code (v = "101") or an HTTP major version
+// (v = "1") every one of them is a different number and has to be refused.
+func WrapNumerals(v string) []string {
+	var out []string
+	for _, p := range []string{"18446744073709551616", "9223372036854775808", "4294967296"} {
+		acc := "0"
+		for k := 1; k <= 6; k++ {
+			acc = decAdd(acc, p)
+			out = append(out, decAdd(acc, v))
+		}
+	}
+	for _, p := range []string{"9223372036854775808", "9223372036854775807", "9223372036854775809", "18446744073709551616", "18446744073709551615",
+		"18446744073709551617", "4294967296", "2147483648", "922337203685477580", "1844674407370955161", "92233720368547758080", "184467440737095516160"} {
+		out = append(out, p+v, p+"0"+v, p+"000"+v)
+	}
+	for _, n := range []int{20, 25, 40, 64, 200} {
+		out = append(out, "1"+strings.Repeat("0", n)+v, strings.Repeat("9", n)+v, strings.Repeat("7", n)+v)
+	}
+	return out
+}
+
+var wrap101, wrap1 = WrapNumerals("101"), WrapNumerals("1")
+
 // VersionTokens is the fixed part of the version alphabet.
 var VersionTokens = []string{
 	"HTTP/1.2", "HTTP/1.9", "HTTP/1.10", "HTTP/1.15", "HTTP/1.999", "HTTP/1.100000",
@@ -331,7 +378,14 @@ func Gen(t *rapid.T, label string, cfg Config, o Opts) *Response {
 	for d := 0; d < ndev; d++ {
 		switch rapid.IntRange(0, 21).Draw(t, L("dev")) {
 		case 0, 1: // status token
-			switch rapid.IntRange(0, 5).Draw(t, L("stkind")) {
+			switch rapid.IntRange(-1, 5).Draw(t, L("stkind")) {
+			case -1:
+				if rapid.Bool().Draw(t, L("stwraprand")) {
+					// random long digit string ending in 101
+					r.Status = rapid.StringOfN(rapid.RuneFrom([]rune("0123456789")), 17, 45, -1).Draw(t, L("stlong")) + "101"
+				} else {
+					r.Status = rapid.SampledFrom(wrap101).Draw(t, L("stwrap"))
+				}
 			case 0:
 				r.Status = rapid.StringOfN(rapid.RuneFrom([]rune("0123456789:;<=>?")), 1, 4, -1).Draw(t, L("stcolon"))
 			case 1:
@@ -342,7 +396,15 @@ func Gen(t *rapid.T, label string, cfg Config, o Opts) *Response {
 				r.Status = rapid.SampledFrom(StatusTokens).Draw(t, L("status"))
 			}
 		case 2, 3: // version
-			if rapid.IntRange(0, 4).Draw(t, L("verkind")) == 0 {
+			if k := rapid.IntRange(0, 5).Draw(t, L("verkind")); k == 5 {
+				// numerals that wrap to 1 as major (must fail) or are huge as minor (open)
+				n := rapid.SampledFrom(wrap1).Draw(t, L("verwrap"))
+				if rapid.IntRange(0, 3).Draw(t, L("verwrapminor")) == 0 {
+					r.Version = "HTTP/1." + n
+				} else {
+					r.Version = "HTTP/" + n + ".1"
+				}
+			} else if k == 0 {
 				r.Version = "HTTP/" + rapid.StringOfN(rapid.RuneFrom([]rune("0123.:x")), 0, 5, -1).Draw(t, L("verrand"))
 			} else {
 				r.Version = rapid.SampledFrom(VersionTokens).Draw(t, L("badversion"))
